@@ -76,7 +76,9 @@ def metamorphic(ctx, n_cases):
         uses = []
         for _ in range(ctx.rng.randint(1, 3)):
             v = variant(ctx.rng, label).replace("\n", " ")
-            form = ctx.rng.choice(["[%s]", "[text][%s]", "[%s][]", "![img][%s]", "*em [%s] em*", "> quoted [%s]", "- li [%s]", "# h [%s]"]
+            form = ctx.rng.choice(["[%s]", "[text][%s]", "[%s][]", "![img][%s]", "*em [%s] em*", "> quoted [%s]", "- li [%s]", "# h [%s]",
+                                   # a reference followed by brackets that open no label, and references next to raw inline HTML (other than <a>)
+                                   "[%s][ rest", "[%s][unclosed *x*", "[%s][[x]] y", "<abbr>[%s]</abbr>", "<audio> [%s] z", "x <area> [%s]", "<b>[%s]</b> <aside>"]
                                   + (["note here[^n1]\n\n[^n1]: inside the note [%s] end", "| head |\n|------|\n| cell [%s] |", "term\n: definition [%s]", "- [ ] task [%s]", "~~del [%s]~~"] * 2 if plug else []))
             uses.append(form % v)
         body = []
